@@ -100,8 +100,13 @@ impl<'a> Die<'a> {
     });
 
     impl_no_virt!(const_value, Option<i64>, |_, die: GimliDie| {
-        die.attr(DW_AT_const_value)
-            .and_then(|val| val.sdata_value())
+        // an unsigned constant above i64::MAX (`#[repr(u64)] enum E { A = u64::MAX }`) has no
+        // signed representation in gimli, keep its bit pattern: a discriminant read from
+        // the debugee memory is converted to i64 in the same way
+        die.attr(DW_AT_const_value).and_then(|val| {
+            val.sdata_value()
+                .or_else(|| val.udata_value().map(|unsigned| unsigned as i64))
+        })
     });
 
     impl_no_virt!(
